@@ -159,6 +159,20 @@ class LineProc:
             return {"status": "bad_output", "raw": r[:500]}
 
 
+PDLC_TARGET = os.path.join(CACHE, "pdlc-target")
+PDLC = os.path.join(PDLC_TARGET, "debug", "pdlc")
+
+
+def build_pdlc():
+    """the command-line compiler, built from /repo's working tree"""
+    env = dict(ENV)
+    env["CARGO_TARGET_DIR"] = PDLC_TARGET
+    with Lock("pdlc"):
+        rc, out = run(["cargo", "build", "--offline", "-p", "pdl-compiler", "--features", "java", "--bin", "pdlc"],
+                      cwd=REPO, env=env, timeout=3600)
+    return rc == 0 and os.path.exists(PDLC), out
+
+
 def driver(timeout=30.0):
     return LineProc([DRIVER_BIN], timeout=timeout)
 
